@@ -523,4 +523,203 @@ theorem playable_enough (p q : Pos) (ms : List Mv) (h : Playable p ms q) :
     rw [fixupEP_b] at ih
     exact enough_step p.wtm _ _ _ (apply_cstep p m (legalB_pseudo p m hl)) ih
 
+
+/-! ## sides alternate; plies from per-side move counts -/
+
+theorem apply_wtm (p : Pos) (m : Mv) : (apply p m).wtm = !p.wtm := rfl
+
+theorem playable_wtm (p q : Pos) (ms : List Mv) (h : Playable p ms q) :
+    q.wtm = (if ms.length % 2 = 0 then p.wtm else !p.wtm) := by
+  induction h with
+  | nil p => rfl
+  | cons p m ms q _ _ ih =>
+    rw [ih, fixupEP_wtm, apply_wtm, List.length_cons]
+    by_cases h2 : ms.length % 2 = 0
+    · have : (ms.length + 1) % 2 ≠ 0 := by omega
+      rw [if_pos h2, if_neg this]
+    · have : (ms.length + 1) % 2 = 0 := by omega
+      rw [if_neg h2, if_pos this, Bool.not_not]
+
+theorem nWhite_add_nBlack (w : Bool) (n : Nat) : nWhite w n + nBlack w n = n := by
+  unfold nWhite nBlack; cases w <;> simp only [if_true, if_false, Bool.false_eq_true] <;> omega
+
+/-- arithmetic core: if white makes `nw ≥ a` and black `nb ≥ b` moves in an alternating sequence of `n` plies that
+    starts with `posW` to move and ends with `goalW` to move, then `n ≥ pliesFromMoves a b posW goalW` -/
+theorem plies_arith (a b : Int) (posW : Bool) (n : Nat) (ha : a ≤ nWhite posW n) (hb : b ≤ nBlack posW n) :
+    pliesFromMoves a b posW (if n % 2 = 0 then posW else !posW) ≤ n := by
+  unfold pliesFromMoves wNeededPlies bNeededPlies
+  unfold nWhite at ha
+  unfold nBlack at hb
+  cases posW <;> by_cases h2 : n % 2 = 0 <;>
+    simp only [h2, if_true, if_false, Bool.false_eq_true, Bool.not_false, Bool.not_true] at ha hb ⊢ <;> omega
+
+/-! ## certificate checker -/
+
+theorem sameDraw_iff (q t : Pos) : sameDraw q t = true ↔ (q.b = t.b ∧ q.wtm = t.wtm ∧ q.castle = t.castle ∧ q.ep = t.ep) := by
+  unfold sameDraw
+  simp only [Bool.and_eq_true, decide_eq_true_eq, beq_iff_eq]
+  constructor
+  · rintro ⟨⟨⟨h1, h2⟩, h3⟩, h4⟩; exact ⟨h1, h2, h3, h4⟩
+  · rintro ⟨h1, h2, h3, h4⟩; exact ⟨⟨⟨h1, h2⟩, h3⟩, h4⟩
+
+theorem playSan_sound (p q : Pos) (ss : List String) (h : playSan p ss = some q) :
+    ∃ ms : List Mv, ms.length = ss.length ∧ Playable p ms q := by
+  induction ss generalizing p with
+  | nil =>
+    simp only [playSan, Option.some.injEq] at h
+    subst h
+    exact ⟨[], rfl, .nil p⟩
+  | cons s rest ih =>
+    simp only [playSan] at h
+    split at h
+    · next m _ =>
+      split at h
+      · next hl =>
+        obtain ⟨ms, hlen, hp⟩ := ih _ h
+        exact ⟨m :: ms, by simp [hlen], .cons p m ms q hl hp⟩
+      · cases h
+    · cases h
+
+/-! ## colour-exact form: the mover never loses a man, the opponent at most one -/
+
+/-- the en-passant square, if set, has a man of the side *not* to move behind it (true after every `apply`) -/
+def EpOK (p : Pos) : Prop :=
+  ∀ e : Sq, p.ep = some e → own p.wtm (p.b.getD (if p.wtm then e.val - 8 else e.val + 8) 0) = false
+
+set_option maxRecDepth 100000 in
+theorem own_excl_aux : ∀ (w : Bool) (n : Fin 256), own w (UInt8.ofNat n.val) = true → own (!w) (UInt8.ofNat n.val) = false := by
+  decide +kernel
+
+theorem own_excl (w : Bool) (x : Pc) (h : own w x = true) : own (!w) x = false := by
+  have := own_excl_aux w ⟨x.toNat, x.toNat_lt⟩
+  simp only [UInt8.ofNat_toNat] at this
+  exact this h
+
+set_option maxRecDepth 100000 in
+theorem sum_ind_aux : ∀ (n : Fin 256),
+    (ind (UInt8.ofNat n.val) 1 + ind (UInt8.ofNat n.val) 2 + ind (UInt8.ofNat n.val) 3 + ind (UInt8.ofNat n.val) 4 +
+      ind (UInt8.ofNat n.val) 5 + ind (UInt8.ofNat n.val) 6 = if own true (UInt8.ofNat n.val) then 1 else 0) ∧
+    (ind (UInt8.ofNat n.val) 7 + ind (UInt8.ofNat n.val) 8 + ind (UInt8.ofNat n.val) 9 + ind (UInt8.ofNat n.val) 10 +
+      ind (UInt8.ofNat n.val) 11 + ind (UInt8.ofNat n.val) 12 = if own false (UInt8.ofNat n.val) then 1 else 0) := by
+  decide +kernel
+
+theorem sum_ind (x : Pc) :
+    (ind x 1 + ind x 2 + ind x 3 + ind x 4 + ind x 5 + ind x 6 = if own true x then 1 else 0) ∧
+    (ind x 7 + ind x 8 + ind x 9 + ind x 10 + ind x 11 + ind x 12 = if own false x then 1 else 0) := by
+  have := sum_ind_aux ⟨x.toNat, x.toNat_lt⟩
+  simp only [UInt8.ofNat_toNat] at this
+  exact this
+
+theorem newPc_own (p : Pos) (m : Mv) (h : pseudo p m = true) : own p.wtm (newPc p m) = true := by
+  unfold newPc
+  by_cases hp : m.promo = 0
+  · have : (m.promo != 0) = false := by simp [hp]
+    rw [this]; exact (pseudo_basic p m h).1
+  · have : (m.promo != 0) = true := by simp [hp]
+    rw [this]
+    have := (promo_facts p m h hp).2
+    unfold isPromoPiece at this
+    rw [Bool.and_eq_true] at this
+    exact this.1
+
+theorem capturedPc_not_own (p : Pos) (m : Mv) (h : pseudo p m = true) (hep : EpOK p) : own p.wtm (capturedPc p m) = false := by
+  unfold capturedPc
+  cases he : isEpMv p m
+  · simp only [Bool.false_eq_true, if_false]; exact (pseudo_basic p m h).2.1
+  · simp only [if_true]
+    unfold isEpMv at he
+    simp only [Bool.and_eq_true, beq_iff_eq] at he
+    exact hep m.t he.1.1.2
+
+/-- men of each colour across one move: the mover keeps all, the opponent loses exactly the captured man -/
+theorem apply_men (p : Pos) (m : Mv) (h : pseudo p m = true) (hep : EpOK p) :
+    men p.wtm (apply p m).b = men p.wtm p.b ∧
+    men (!p.wtm) (apply p m).b + (if own (!p.wtm) (capturedPc p m) then 1 else 0) = men (!p.wtm) p.b := by
+  have E := fun a ha => apply_counts p m h a ha
+  have e1 := E 1 (by decide); have e2 := E 2 (by decide); have e3 := E 3 (by decide); have e4 := E 4 (by decide)
+  have e5 := E 5 (by decide); have e6 := E 6 (by decide); have e7 := E 7 (by decide); have e8 := E 8 (by decide)
+  have e9 := E 9 (by decide); have e10 := E 10 (by decide); have e11 := E 11 (by decide); have e12 := E 12 (by decide)
+  have sc := sum_ind (capturedPc p m)
+  have sp := sum_ind (p.at m.f)
+  have sn := sum_ind (newPc p m)
+  have c0 := capturedPc_not_own p m h hep
+  have p0 := (pseudo_basic p m h).1
+  have n0 := newPc_own p m h
+  have p1 := own_excl _ _ p0
+  have n1 := own_excl _ _ n0
+  unfold men
+  cases hw : p.wtm <;> rw [hw] at c0 p0 n0 p1 n1 <;>
+    simp only [Bool.not_true, Bool.not_false] at p1 n1 <;>
+    simp only [c0, p0, n0, p1, n1, if_true, if_false, Bool.false_eq_true, Bool.not_true, Bool.not_false] at sc sp sn ⊢ <;>
+    constructor <;> omega
+
+def epAdj (p : Pos) (m : Mv) : Bool :=
+  (m.t.x > 0 && (apply p m).b.getD (m.t.val - 1) 0 == (if p.wtm then BPAWN else WPAWN)) ||
+  (m.t.x < 7 && (apply p m).b.getD (m.t.val + 1) 0 == (if p.wtm then BPAWN else WPAWN))
+
+theorem apply_ep (p : Pos) (m : Mv) : (apply p m).ep =
+    (if kind (p.at m.f) == 6 && (m.t.val == m.f.val + 16 || m.f.val == m.t.val + 16) then
+      (if epAdj p m then some ⟨((m.f.val + m.t.val) / 2) % 64, Nat.mod_lt _ (by decide)⟩ else none)
+     else none) := rfl
+
+theorem apply_ep_some (p : Pos) (m : Mv) (e : Sq) (he : (apply p m).ep = some e) :
+    kind (p.at m.f) = 6 ∧ (m.t.val = m.f.val + 16 ∨ m.f.val = m.t.val + 16) ∧ e.val = ((m.f.val + m.t.val) / 2) % 64 := by
+  rw [apply_ep] at he
+  by_cases hc : (kind (p.at m.f) == 6 && (m.t.val == m.f.val + 16 || m.f.val == m.t.val + 16)) = true
+  · rw [if_pos hc] at he
+    by_cases ha : epAdj p m = true
+    · rw [if_pos ha] at he
+      simp only [Option.some.injEq] at he
+      simp only [Bool.and_eq_true, Bool.or_eq_true, beq_iff_eq] at hc
+      refine ⟨hc.1, hc.2, ?_⟩
+      rw [← he]
+    · rw [if_neg ha] at he; cases he
+  · rw [if_neg hc] at he; cases he
+
+theorem stage1_get_t (p : Pos) (m : Mv) : (stage1 p m)[m.t.val] = newPc p m := by
+  unfold stage1 setSq
+  rw [Vector.getElem_setIfInBounds m.t.isLt, if_pos rfl]
+
+theorem apply_epOK (p : Pos) (m : Mv) (h : pseudo p m = true) : EpOK (apply p m) := by
+  intro e he
+  obtain ⟨hk, hd, hev⟩ := apply_ep_some p m e he
+  have hp := (pseudo_pawn p m h hk).2
+  have hf := m.f.isLt
+  have ht := m.t.isLt
+  unfold dxy at hp
+  simp only [Sq.y] at hp
+  have hb : (apply p m).b = stage1 p m := by
+    rw [apply_b]
+    have c1 : (kind (p.at m.f) == 1 && m.t.val == m.f.val + 2) = false := by rw [hk]; rfl
+    have c2 : (kind (p.at m.f) == 1 && m.t.val + 2 == m.f.val) = false := by rw [hk]; rfl
+    rw [c1, c2]; rfl
+  have key : (if (apply p m).wtm then e.val - 8 else e.val + 8) = m.t.val := by
+    rw [apply_wtm]
+    cases hw : p.wtm <;> simp only [hw, if_true, if_false, Bool.false_eq_true, Bool.not_true, Bool.not_false] at hp ⊢ <;> omega
+  rw [key, hb, getD_eq _ _ ht, stage1_get_t, apply_wtm]
+  exact own_excl _ _ (newPc_own p m h)
+
+theorem fixupEP_epOK (p : Pos) (h : EpOK p) : EpOK (fixupEP p) := by
+  unfold fixupEP
+  split
+  · exact h
+  · split
+    · exact h
+    · intro e he; cases he
+
+/-- along a legal game each side loses at most one man per move of the other side -/
+theorem playable_men (p q : Pos) (ms : List Mv) (h : Playable p ms q) (hep : EpOK p) :
+    men false p.b ≤ men false q.b + nWhite p.wtm ms.length ∧ men true p.b ≤ men true q.b + nBlack p.wtm ms.length := by
+  induction h with
+  | nil p => simp [nWhite, nBlack]
+  | cons p m ms q hl _ ih =>
+    have hps := legalB_pseudo p m hl
+    have ih := ih (fixupEP_epOK _ (apply_epOK p m hps))
+    rw [fixupEP_b, fixupEP_wtm, apply_wtm] at ih
+    obtain ⟨m1, m2⟩ := apply_men p m hps hep
+    rw [List.length_cons]
+    unfold nWhite nBlack at ih ⊢
+    cases hw : p.wtm <;> rw [hw] at m1 m2 ih <;>
+      simp only [Bool.not_true, Bool.not_false, if_true, if_false, Bool.false_eq_true] at m1 m2 ih ⊢ <;>
+      split at m2 <;> omega
 end PG
